@@ -6,6 +6,7 @@ pub mod gen;
 pub mod handles;
 pub mod props;
 pub mod refmodel;
+pub mod relbuild;
 pub mod scratch;
 pub mod targets;
 pub mod tzfiles;
@@ -104,6 +105,7 @@ fn main() {
         }
         Some("c05-serve") => std::process::exit(props::c05::serve()),
         Some("c05-rows") => props::c05::print_rows(),
+        Some("const-serve") => std::process::exit(relbuild::serve()),
         Some("c11-show") => props::c11::show(pos.get(1).unwrap_or_else(|| usage())),
         Some("c18-digest") => {
             for l in props::c18::digest_lines() {
